@@ -69,7 +69,9 @@ Next ==
      \/ /\ \E p \in Picts(oss), k \in {"addBase", "removeBase", "removeFirst", "text", "userTerm"} : (k = "removeFirst" => IsLabelled) /\
              ~GridOnly /\ CanEdit(oss, p, k) /\ (k = "text" => Preset \in {"empty", "chain"} /\ (Structural \/ p \in {1, 4})) /\ Step([Op("Edit") EXCEPT !.p = p, !.kind = k])
         /\ UNCHANGED <<nextPict, nextSrc>>
-     \/ /\ \E p \in Picts(oss) : ~GridOnly /\ oss.hand[p].linked /\ Step([Op("Save") EXCEPT !.p = p]) /\ UNCHANGED <<nextPict, nextSrc>>
+     \/ /\ \E p \in Picts(oss) : ~GridOnly /\ oss.hand[p].linked /\ Step([Op("Close") EXCEPT !.p = p]) /\ UNCHANGED <<nextPict, nextSrc>>
+     \/ /\ \E p \in Picts(oss) : ~GridOnly /\ HasData(oss, p) /\ ~oss.hand[p].linked /\ Step([Op("Open") EXCEPT !.p = p]) /\ UNCHANGED <<nextPict, nextSrc>>
+     \/ /\ \E p \in Picts(oss) : ~GridOnly /\ HasData(oss, p) /\ Step([Op("Save") EXCEPT !.p = p]) /\ UNCHANGED <<nextPict, nextSrc>>
      \/ /\ \E p \in DOMAIN oss.oper, t \in {<<"merge", -1>>, <<"synt", 0>>, <<"synt", 1>>, <<"synt", 2>>, <<"synt", -1>>, <<"merge", 0>>} :
              ~GridOnly /\ (t[2] = 1 => (BothBases(p) \/ IsLabelled)) /\ (t[2] = 2 => IsLabelled) /\ (t \in {<<"synt", -1>>, <<"merge", 0>>} => Structural) /\ Step(IF_(p, t[1], t[2]))
         /\ UNCHANGED <<nextPict, nextSrc>>
